@@ -140,8 +140,24 @@ def stream_after_harvest(ctx, ntables):
     S = ctx.stream("O-after-harvest", "random tables (see S-tree), every 1..3-column tree dumped (ranges, tight ranges, stub flags, rows), all trees harvested "
                    "in increasing and in decreasing dimension order, dumped again: the dumps must be equal and the tight range of every node still the "
                    "hull of its rows; non-trivial = some tree needed refinement (RNG draws)")
-    for _ in range(ntables):
-        t = TS.gen_table(R, max_rows=120)
+    from syndiffix.common import AnonymizationParams, BucketizationParams, SuppressionParams
+    def coded(xs, ys, ap):
+        return {"names": ["x", "y"], "cols": [[float(v) for v in xs], [float(v) for v in ys]], "styles": ["coded", "flag"], "pids": None, "pid_mode": "unique",
+                "ap": ap, "bp": BucketizationParams(), "n": len(xs)}
+    # directed: small tables of integer codes (values on the dyadic grid, so single points sit exactly on mid-points of their parents' ranges) with a flag
+    # column, refined stub leaves in the 2-column tree; first the table on which a harvest that rewrote a sub-node's range in place was seen
+    directed = [coded([4] * 3 + [0] + [4] * 3 + [1, 2, 3] + [8] * 6, [0] * 4 + [1] * 12,
+                      AnonymizationParams(salt=b"demo", low_count_params=SuppressionParams(layer_sd=0.0)))]
+    for i in range(max(20, ntables * 4)):
+        n = R.choice([12, 16, 22, 30]); top = R.choice([4, 8, 8, 16])
+        heavy = R.sample(range(top + 1), 2)
+        xs = [R.choice(heavy) if R.random() < 0.7 else R.randint(0, top) for _ in range(n)]
+        ys = [int(R.random() < 0.7) for _ in range(n)]
+        if R.random() < 0.5:      # grouped row order: the first row of a node decides which child is inserted first
+            o = sorted(range(n), key=lambda r: (ys[r], -xs[r] if R.random() < 0.5 else xs[r])); xs = [xs[r] for r in o]; ys = [ys[r] for r in o]
+        directed.append(coded(xs, ys, AnonymizationParams(salt=bytes([i % 256, 7]), low_count_params=SuppressionParams(layer_sd=R.choice([0.0, 0.0, 1.0])))))
+    for ti in range(ntables + len(directed)):
+        t = directed[ti - ntables] if ti >= ntables else TS.gen_table(R, max_rows=120)
         try:
             F, kind = TS.build_real(t)
         except RecursionError:
